@@ -129,8 +129,14 @@ def coeffMat (dims : Nat → Nat × Nat) (coeffs : List F) : Mat F :=
   let nm := dims cs.length
   Mat.ofFlat nm.1 nm.2 (resize (nm.1 * nm.2) cs)
 
-/-- `LinearEncode::compute_matrices`: `(mat, ext_mat)` -/
-def computeMatrices (pp : Params F D) (coeffs : List F) : Except Err (Mat F × Mat F) :=
+/-- the coefficient vector fits the matrix of `compute_dimensions` (always, for Ligero's shape law; for
+Brakedown's fixed shape exactly when the polynomial is not larger than the key was made for) -/
+def fitsDims (dims : Nat → Nat × Nat) (coeffs : List F) : Bool :=
+  decide ((coeffsOrZero coeffs).length
+    ≤ (dims (coeffsOrZero coeffs).length).1 * (dims (coeffsOrZero coeffs).length).2)
+
+/-- `compute_matrices` after its size assertion: arrange, encode row by row -/
+def computeMatricesCore (pp : Params F D) (coeffs : List F) : Except Err (Mat F × Mat F) :=
   let mat := coeffMat pp.dims coeffs
   match encodeRows pp.enc mat.rows with
   | .error e => .error e
@@ -138,6 +144,11 @@ def computeMatrices (pp : Params F D) (coeffs : List F) : Except Err (Mat F × M
     match Mat.ofRows ws with
     | .error e => .error e
     | .ok ext => .ok (mat, ext)
+
+/-- `LinearEncode::compute_matrices`: `(mat, ext_mat)`; `assert!(coeffs.len() <= n_rows * n_cols)`
+(fix D21: `resize` would otherwise drop the surplus coefficients silently) -/
+def computeMatrices (pp : Params F D) (coeffs : List F) : Except Err (Mat F × Mat F) :=
+  if fitsDims pp.dims coeffs = false then .error .abort else computeMatricesCore pp coeffs
 
 /-- the Merkle leaves of a commitment: column hashes of the encoded matrix -/
 def leavesOf (pp : Params F D) (ext : Mat F) : List D := ext.cols.map pp.colHash
